@@ -140,7 +140,14 @@ def r11(e: Engine, rep: Report):
                 and 'relay' in ast.unparse(n.ast.func):
             return {TRANS, PERM, ANY}
         return set()
-    g = e.build(ctx, raises=raises, assert_raises=False)
+    # _attempt together with the private helpers its arms were moved into
+    # (the disposition primitives themselves are events, not inlined)
+    g = e.build(ctx, raises=raises, assert_raises=False,
+                inline=e.inline_same_self(deny=[
+                    '_retry_later', '_handle_partial_relay', '_remove',
+                    '_perm_fail', '_pool_spawn', '_pool_run', '_pool_imap',
+                    '_add_queued', '_bounce', '_split_by_reply']),
+                max_depth=4)
     relay = [n for n in g.nodes if n.kind == 'call' and
              e.call_name(n) in ('_attempt', 'attempt') and
              'relay' in ast.unparse(n.ast.func)]
@@ -148,6 +155,10 @@ def r11(e: Engine, rep: Report):
         rep.error('anchor vanished: relay._attempt call in Queue._attempt')
         return
     p = e.p
+    # the arm is what the relay raised; a handler that catches several
+    # kinds and tells them apart with isinstance() is followed with the
+    # kind in hand
+    arm_by_token = {TRANS: 'trans', PERM: 'perm', ANY: 'exc'}
 
     def arm_of(h: Node) -> str:
         ts = h.extra.get('types', [])
@@ -156,13 +167,57 @@ def r11(e: Engine, rep: Report):
         if any(p.is_subclass(t, PERM) for t in ts):
             return 'perm'
         return 'other'
+    caught = set()
+    for h in g.of_kind('handler'):
+        if h.frame is g.entry.frame and h.ast.name:
+            caught.add(canon(ast.Name(id=h.ast.name, ctx=ast.Load()),
+                             h.frame))
+
+    def decided(n, arm):
+        """truth of `isinstance(<caught exception>, C)` on this arm"""
+        t = n.ast
+        neg = False
+        while isinstance(t, ast.UnaryOp) and isinstance(t.op, ast.Not):
+            t, neg = t.operand, not neg
+        if not (isinstance(t, ast.Call) and isinstance(t.func, ast.Name) and
+                t.func.id == 'isinstance' and len(t.args) == 2):
+            return None
+        try:
+            if canon(t.args[0], n.frame) not in caught:
+                return None
+        except Exception:
+            return None
+        cs = t.args[1].elts if isinstance(t.args[1], ast.Tuple) \
+            else [t.args[1]]
+        qs = [p.resolve_expr_qname(n.frame.ctx.func.module, c) for c in cs]
+        if any(q is None for q in qs):
+            return None
+        mine = {'trans': TRANS, 'perm': PERM}.get(arm)
+        if mine is None:
+            # something that is not a relay error: no RelayError class
+            # matches; broader classes are not decided
+            r = None if any(not p.is_subclass(q, 'slimta.relay.RelayError')
+                            for q in qs) else False
+        else:
+            r = any(p.is_subclass(mine, q) for q in qs)
+            if not r and any(p.is_subclass(q, mine) for q in qs):
+                r = None        # a subclass of the raised kind: may match
+        return None if r is None else (r != neg)
 
     def step(n, label, st):
         arm, evs = st
         if n in relay:
-            arm = 'normal' if not isinstance(label, tuple) else 'exc'
-        if n.kind == 'handler' and n.frame is g.entry.frame:
+            arm = 'normal' if not isinstance(label, tuple) else \
+                arm_by_token.get(label[1], 'exc')
+        if n.kind == 'handler' and n.frame is g.entry.frame and \
+                arm == 'exc':
+            # an unspecified exception is of the kind its handler names
             arm = arm_of(n)
+        if n.kind == 'test' and label in ('T', 'F') and \
+                arm in ('trans', 'perm', 'other'):
+            r = decided(n, arm)
+            if r is not None and r != (label == 'T'):
+                return None
         d = disposition(e, n)
         if d and not isinstance(label, tuple):
             evs = evs + (d,)
